@@ -39,8 +39,11 @@ where
             sctl_next.sink_next(x);
           } else {
             if !f.call(x.clone()) {
-              sctl_next.sink_next(x);
+              // the skipping is over before this item is handed on: an item
+              // that arrives during its delivery (a callback feeding the
+              // source) is mirrored like every later one
               *enable.write().unwrap() = true;
+              sctl_next.sink_next(x);
             }
           }
         },
